@@ -2,7 +2,7 @@
 from common import *
 import scripts, itertools
 
-THEOREMS = ['generic_total', 'generic_never_panics', 'nested_never_panics_definite', 'nested_never_panics_indefinite', 'fuel_adequate', 'generic_terminates', 'leaves_run', 'stepG0_err_panic', 'parseValue_consumes', 'Bcder.Props.C01b.int_total', 'Bcder.Props.C01b.bool_total', 'Bcder.Props.C01b.null_total', 'Bcder.Props.C01b.integer_total', 'Bcder.Props.C01b.unsigned_total', 'Bcder.Props.C01b.oid_total', 'Bcder.Props.C01b.bits_total', 'Bcder.Props.C01b.octets_prim_total', 'Bcder.Props.C01b.octets_cons_der_total', 'Bcder.Props.C01b.octets_cons_ber_total', 'Bcder.Props.C01b.chars_total', 'Bcder.Props.C01b.skip_total', 'Bcder.leafSafe_run', 'Bcder.harmless_run', 'Bcder.LeafSafe.bind', 'Bcder.ls_toInt', 'Bcder.Props.C01c.bodyF_safe', 'Bcder.Props.C01c.safe_pnv', 'Bcder.Props.C01c.safe_pnvE', 'Bcder.Props.C01c.safeK_skipOpt', 'Bcder.Props.C01c.safeK_skipAll', 'Bcder.Props.C01c.safeK_capture', 'Bcder.Props.C01c.safeK_captureOne', 'Bcder.Props.C01c.safeK_captureAll', 'Bcder.Props.C01c.safeC_octets', 'Bcder.Props.C01c.reader_safe', 'Bcder.Props.C01c.closure_safe', 'Bcder.Props.C01c.decode_never_panics', 'Bcder.Props.C01c.sample_never_panics', 'Bcder.Props.C01c.sample2_never_panics']
+THEOREMS = ['generic_total', 'generic_never_panics', 'nested_never_panics_definite', 'nested_never_panics_indefinite', 'fuel_adequate', 'generic_terminates', 'leaves_run', 'stepG0_err_panic', 'parseValue_consumes', 'Bcder.Props.C01b.int_total', 'Bcder.Props.C01b.bool_total', 'Bcder.Props.C01b.null_total', 'Bcder.Props.C01b.integer_total', 'Bcder.Props.C01b.unsigned_total', 'Bcder.Props.C01b.oid_total', 'Bcder.Props.C01b.bits_total', 'Bcder.Props.C01b.octets_prim_total', 'Bcder.Props.C01b.octets_cons_der_total', 'Bcder.Props.C01b.octets_cons_ber_total', 'Bcder.Props.C01b.chars_total', 'Bcder.Props.C01b.skip_total', 'Bcder.leafSafe_run', 'Bcder.harmless_run', 'Bcder.LeafSafe.bind', 'Bcder.ls_toInt', 'Bcder.Props.C01c.bodyF_safe', 'Bcder.Props.C01c.safe_pnv', 'Bcder.Props.C01c.safe_pnvE', 'Bcder.Props.C01c.safeK_skipOpt', 'Bcder.Props.C01c.safeK_skipAll', 'Bcder.Props.C01c.safeK_capture', 'Bcder.Props.C01c.safeK_captureOne', 'Bcder.Props.C01c.safeK_captureAll', 'Bcder.Props.C01c.safeC_octets', 'Bcder.Props.C01c.reader_safe', 'Bcder.Props.C01c.closure_safe', 'Bcder.Props.C01c.decode_never_panics', 'Bcder.Props.C01c.sample_never_panics', 'Bcder.Props.C01c.sample2_never_panics', 'Bcder.Props.C01c.safeK_captureF', 'Bcder.Props.C01c.reader_nested', 'Bcder.Props.C01c.nested_capture_never_panics']
 EXTRA_MODULES = ['C01b', 'C01c']
 RULE = ("the malformed streams of all other properties through every entry point (generic reads, typed readers for every value type, skip, "
         "capture, Captured::decode[_partial], OctetString as a source) in 3 modes over slice and contract-asserting streaming sources, then "
@@ -140,5 +140,5 @@ def nontrivial(req, ans):
     return True
 
 LEVEL = "proof"
-LEVEL_TEXT = ("PARTIAL (the logic part is proved, the runtime part is explored). Lean 4 theorems for ALL octet strings, all modes: Mode::decode with the generic reader ends in a value with everything consumed, a content error, or the model's out-of-fuel marker - never in one of the model's panic sites (index, unwrap, assertion, advance past limit) - at top level and inside definite parents with any limit and indefinite parents (generic_total, generic_never_panics, nested_never_panics_*); a loop budget of input length + 2 is never exhausted, i.e. the number of loop iterations and the recursion depth are bounded by the input length because every value consumes at least its two header octets (fuel_adequate, generic_terminates, parseValue_consumes) - the never-loops-forever part; source operations fail only as contract panics and routines whose failure leaves are content errors can only end in those (stepG0_err_panic, leaves_run). TYPED READING NEVER PANICS, FOR EVERY COMPOSITION (Props/C01c.lean, Lemmas/LeafSafe.lean): content-level code built from infallible accesses and the four LimitedSource helpers (LeafSafe: all ten fixed-width INTEGER accessors incl. slice_to_builtin behind check_head, BOOLEAN, NULL, Integer, Unsigned, OID, BIT STRING take and skip, primitive OCTET STRING) ends on EVERY limited source - any declared length, however little data is really there - in a value or a non-panic error (leafSafe_run); process_next_value, untagged and tag-selective, maps closures that never panic to readers that never panic and keep the Constructed usable (safe_pnv, safe_pnvE, via the closed forms of C02/C09); the mutually inductive families Reader / Closure contain take_[opt_]{value,primitive,constructed}[_if], sequencing, mapping/rejecting, skip_opt/skip_one/skip_all with any filter and budget, capture / capture_one / capture_all (the advance of the enclosing source over the captured octets stays within its limit because readers keep the LimitedSource accounting: consumed + limit left <= old limit, safeK_capture), BitString::from_content and OctetString::from_content in every form and mode (safeC_octets), at ANY nesting depth (reader_safe, closure_safe by mutual structural recursion); Mode::decode with any such reader never reaches a panic site on any octet string in any mode (decode_never_panics; instances sample_never_panics, sample2_never_panics). The typed accessors and skipping are total on every content - a value or a content error (octet strings and skip: or the loop budget), never a panic site: Props/C01b.lean collects int_total (all ten INTEGER types), bool_total, null_total, integer_total, unsigned_total, oid_total, bits_total, octets_prim_total, octets_cons_*_total, chars_total, skip_total from the per-type theorems of C14-C20, C10 and C16b. Runtime part, on every run against the real crate: ~250k requests through every entry point in 3 modes over slice and contract-asserting streaming sources, all accessors of accepted values, 100000-level nestings on a 256 KiB stack, declared lengths up to 2^32-1, metered peak heap <= 16 x input + 64 KiB, hang watchdog; any PANIC/CONTRACT/HANG/ABORT answer is a violation.")
+LEVEL_TEXT = ("PARTIAL (the logic part is proved, the runtime part is explored). Lean 4 theorems for ALL octet strings, all modes: Mode::decode with the generic reader ends in a value with everything consumed, a content error, or the model's out-of-fuel marker - never in one of the model's panic sites (index, unwrap, assertion, advance past limit) - at top level and inside definite parents with any limit and indefinite parents (generic_total, generic_never_panics, nested_never_panics_*); a loop budget of input length + 2 is never exhausted, i.e. the number of loop iterations and the recursion depth are bounded by the input length because every value consumes at least its two header octets (fuel_adequate, generic_terminates, parseValue_consumes) - the never-loops-forever part; source operations fail only as contract panics and routines whose failure leaves are content errors can only end in those (stepG0_err_panic, leaves_run). TYPED READING NEVER PANICS, FOR EVERY COMPOSITION (Props/C01c.lean, Lemmas/LeafSafe.lean): content-level code built from infallible accesses and the four LimitedSource helpers (LeafSafe: all ten fixed-width INTEGER accessors incl. slice_to_builtin behind check_head, BOOLEAN, NULL, Integer, Unsigned, OID, BIT STRING take and skip, primitive OCTET STRING) ends on EVERY limited source - any declared length, however little data is really there - in a value or a non-panic error (leafSafe_run); process_next_value, untagged and tag-selective, maps closures that never panic to readers that never panic and keep the Constructed usable (safe_pnv, safe_pnvE, via the closed forms of C02/C09); the mutually inductive families Reader / Closure contain take_[opt_]{value,primitive,constructed}[_if], sequencing, mapping/rejecting, skip_opt/skip_one/skip_all with any filter and budget, capture / capture_one / capture_all (the advance of the enclosing source over the captured octets stays within its limit because readers keep the LimitedSource accounting: consumed + limit left <= old limit, safeK_capture), BitString::from_content and OctetString::from_content in every form and mode (safeC_octets), at ANY nesting depth (reader_safe, closure_safe by mutual structural recursion); Mode::decode with any such reader never reaches a panic site on any octet string in any mode (decode_never_panics; instances sample_never_panics, sample2_never_panics). The typed accessors and skipping are total on every content - a value or a content error (octet strings and skip: or the loop budget), never a panic site: Props/C01b.lean collects int_total (all ten INTEGER types), bool_total, null_total, integer_total, unsigned_total, oid_total, bits_total, octets_prim_total, octets_cons_*_total, chars_total, skip_total from the per-type theorems of C14-C20, C10 and C16b. Captures whose closure captures again are in the family since session 4 (Reader.captureF over C11c.Framable closures; safeK_captureF, reader_nested, nested_capture_never_panics: in particular the truncation of captured octets by the recorded marker size cannot underflow). Runtime part, on every run against the real crate: ~250k requests through every entry point in 3 modes over slice and contract-asserting streaming sources, all accessors of accepted values, 100000-level nestings on a 256 KiB stack, declared lengths up to 2^32-1, metered peak heap <= 16 x input + 64 KiB, hang watchdog; any PANIC/CONTRACT/HANG/ABORT answer is a violation.")
 LEVEL_NOTE = ("Trusted: Lean 4.33 kernel; axioms propext, Classical.choice, Quot.sound only; the hand-written model tied to /repo on every run by differential correspondence. NOT expressible in the model and therefore not proved: call-stack depth of the Rust code, aborts on allocation failure, allocation volume, wall-clock hangs, integer overflow checks of the compiled code (the harness is built with overflow checks on) - these are explored by the implementation driver only. skip/capture/typed-reader totality at the program level rests on C10/C11/C14-C20 and on the correspondence check; documented caller-misuse panics are excluded.")
